@@ -438,6 +438,14 @@ func genRay2(rng *rand.Rand, s *subject2) (o, d V2) {
 	if rng.Intn(2) == 0 {
 		d = d.Scale(logUniform(rng, -3, 3))
 	}
+	if rng.Intn(2) == 0 { // zero components of either sign
+		if d.X == 0 {
+			d.X = math.Copysign(0, -1)
+		}
+		if d.Y == 0 {
+			d.Y = math.Copysign(0, -1)
+		}
+	}
 	return o, d
 }
 
